@@ -381,7 +381,8 @@ def lean_phase(ctx):
 # ---------------------------------------------------------------------------------------------
 
 def write_evidence(ctx, level="proof"):
-    os.makedirs(os.path.join(VERIF, "evidence"), exist_ok=True)
+    evdir = os.environ.get("VERIF_EVIDENCE_DIR", os.path.join(VERIF, "evidence"))   # (seed experiments keep /verif/evidence untouched)
+    os.makedirs(evdir, exist_ok=True)
     cov = {
         "obligations": max(1, len(ctx.obligations)),
         "discharged": len(ctx.discharged),
@@ -406,7 +407,7 @@ def write_evidence(ctx, level="proof"):
         "property_id": ctx.pid, "tier": ctx.tier, "seed": ctx.seed, "level": level, "coverage": cov,
         "assumptions": TRUSTED_BASE, "wall_s": round(time.time() - ctx.t0, 2), "violations": len(ctx.violations),
     }
-    with open(os.path.join(VERIF, "evidence", ctx.pid + ".json"), "w") as f:
+    with open(os.path.join(evdir, ctx.pid + ".json"), "w") as f:
         json.dump(ev, f, indent=1)
 
 
